@@ -82,3 +82,34 @@ def check(ci: int) -> bool:
     if t0 != t1:
         LAST_DIFF = ('tree differs under layout / optional words', base, text); return False
     return True
+
+
+EDGES = ['', ' ', '\n', '\t', '\r\n', '// comment up to the end of the text', ' // c ; x = 1;', '/* c */', '/* a\n b */', '// c\n', ' \n\n ']
+NEDGE = len(EDGES)
+
+
+def check_edges(pi: int, lead: int, tail: int) -> bool:
+    """
+    pre: 0 <= pi < NP and 0 <= lead < NEDGE and 0 <= tail < NEDGE
+    post: POST(_)
+    """
+    # layout before the first and behind the last token (incl. a line comment that the text ends in)
+    global LAST_DIFF
+    pi = cs(pi, 0, NP - 1); lead = cs(lead, 0, NEDGE - 1); tail = cs(tail, 0, NEDGE - 1)
+    with notrace():
+        base = PROGS[pi]
+        head = EDGES[lead]
+        if head.startswith('//') or head.startswith(' //'):
+            if not head.endswith('\n'):
+                head = head + '\n'       # a leading line comment needs its line break, otherwise it swallows the program
+        text = head + base.rstrip('\n') + EDGES[tail]
+        t0 = c08_parse.tree(oal.parse(base))
+        try:
+            t1 = c08_parse.tree(oal.parse(text))
+        except oal.ParseException as e:
+            case('edges', pi, lead, tail)
+            LAST_DIFF = ('text with layout before / behind the program does not parse', str(e), text); return False
+    case('edges', pi, lead, tail)
+    if t0 != t1:
+        LAST_DIFF = ('tree differs under leading / trailing layout', base, text); return False
+    return True
